@@ -1,9 +1,10 @@
 #!/bin/sh
-# copy finished round-2 mutants from the scratch worktrees into /verif/seeded (only what exists and is not yet imported)
+# copy finished mutants of a round from the scratch worktrees into /verif/seeded: import_mutants.sh <wt-prefix> <letters...>
+P=${1:-/tmp/wt3_C}; shift; L=${*:-E F}
 for i in 01 02 03 04 05 06 07 08 09 10 11 12 13 14 15 16 17 18 19 20; do
-  for m in C D; do
-    s=/tmp/wt2_C$i/mutant/$m; d=/verif/seeded/C$i-$m
-    [ -f $s/patch.diff ] && [ -f $s/meta.json ] && [ ! -d $d ] && { mkdir -p $d; cp $s/patch.diff $s/meta.json $d/; cp $s/demo.c $s/run_demo.sh $d/ 2>/dev/null; cp $s/*.c $s/*.sh $s/*.py $d/ 2>/dev/null; echo imported C$i-$m; }
+  for m in $L; do
+    s=$P$i/mutant/$m; d=/verif/seeded/C$i-$m
+    [ -f $s/patch.diff ] && [ -f $s/meta.json ] && [ ! -d $d ] && { mkdir -p $d; cp $s/patch.diff $s/meta.json $d/; cp $s/*.c $s/*.sh $s/*.py $d/ 2>/dev/null; echo imported C$i-$m; }
   done
 done
-ls -d /verif/seeded/*-[CD] 2>/dev/null | wc -l
+ls -d /verif/seeded/* | wc -l
